@@ -348,8 +348,8 @@ impl Check for C12 {
     }
     fn lanes(&self, tier: Tier) -> Vec<(&'static str, usize, usize)> {
         match tier {
-            Tier::Quick => vec![("accept", 20_000, 300), ("switch", 8_000, 300), ("lattice", 6_000, 300)],
-            Tier::Thorough => vec![("accept", 2_000_000, 400), ("switch", 600_000, 400), ("lattice", 400_000, 400)],
+            Tier::Quick => vec![("accept", 200_000, 300), ("switch", 80_000, 300), ("lattice", 60_000, 300)],
+            Tier::Thorough => vec![("accept", 4_000_000, 400), ("switch", 1_600_000, 400), ("lattice", 1_200_000, 400)],
         }
     }
     fn extra(&self, _tier: Tier, st: &mut crate::runner::Stats, _known: &dyn Fn(&str) -> bool, _threads: usize) -> Result<serde_json::Value, Failure> {
